@@ -5,8 +5,10 @@
   `is_ascii()`, byte slices after the ASCII check).
 
   zlib is a *parameter*: `deflate` is what `ZlibEncoder::write_all` + `finish` produce,
-  `readOnce` is what the single `decoder.read(&mut buf)` call into the
-  `MAX_DECOMPRESSED_SIZE`-byte buffer of `from_str` yields (`none` = the read returned an error).
+  `readOnce` is what `from_str`'s bounded read step yields: since fix f96075f it reads into the
+  `MAX_DECOMPRESSED_SIZE`-byte buffer until the stream ends or the buffer is full (before the fix
+  it was a single `decoder.read(&mut buf)` call, for which the contract below fails on payloads
+  whose compressed form exceeds flate2's 32 KiB input chunk); `none` = a read returned an error.
   The contract the round-trip theorems need is `Zlib.Contract`; it is a hypothesis of those
   theorems, never an axiom, and the harness checks it against the real flate2 path.
 -/
@@ -26,7 +28,7 @@ structure Zlib where
 
 /-- what the round trip needs from zlib -/
 structure Zlib.Contract (Z : Zlib) : Prop where
-  /-- one `read` into a `MAX`-byte buffer returns the whole payload when it fits -/
+  /-- the bounded read step returns the whole payload when it fits the `MAX`-byte buffer -/
   read_deflate : ∀ x : Bytes, x.length ≤ MAX → Z.readOnce (Z.deflate x) = some x
   /-- a zlib stream is never empty (it has a header and a checksum) -/
   deflate_ne_nil : ∀ x : Bytes, Z.deflate x ≠ []
